@@ -6,8 +6,8 @@ export GOFLAGS=-mod=mod GOPROXY=off GOSUMDB=off GOTOOLCHAIN=local GOWORK=off
 root=${1:-/tmp/wt_out}
 only=${2:-}
 props=${3:-$(for i in $(seq -w 1 20); do echo C$i; done)}
-for patch in $(ls $root/R*/*/patch.diff | sort -V); do
-  name=$(echo "$patch" | sed -E 's#.*/(R[0-9]+)/([0-9]+)/patch.diff#\1-\2#')
+for patch in $(ls $root/[RS]*/*/patch.diff | sort -V); do
+  name=$(echo "$patch" | sed -E 's#.*/([RS][0-9]+)/([0-9]+)/patch.diff#\1-\2#')
   [ -n "$only" ] && [ "$only" != "$name" ] && continue
   scratch=$(mktemp -d /tmp/gmcref.XXXXXX)
   [ -n "$scratch" ] && [ -d "$scratch" ] || { echo "NO-SCRATCH"; exit 9; }
